@@ -123,3 +123,24 @@ Theorem c05_plain_reading_for_valid_key : forall ps key, is_bytes key -> valid_u
   spec_prefix false ps key = spec_prefix true ps key.
 Proof. exact spec_prefix_valid_eq. Qed.
 Print Assumptions c05_plain_reading_for_valid_key.
+
+(* ---------------------------------------------------------------------------------------------------------------
+   Refinement to what the run executes.  For every pattern set and text (byte strings) the four outputs of the executable
+   model satisfy the conditions the judge checks on the implementation's outputs, in the reading the judge selects ... *)
+From V Require Import Lib.Enc Model.TrieCase Proofs.TrieJudge.
+
+Theorem c05_model_satisfies_judge : forall ps text T, Forall is_bytes ps -> is_bytes text -> built ps T ->
+  match_ T text = Ok (spec_match (mode_of ps) ps text) /\
+  (exists l, find_all T text = Ok l /\ perm_b l (spec_find_all (mode_of ps) ps text) = true) /\
+  (exists l, prefix_search T text = Ok l /\ perm_b l (spec_prefix (negb (valid_utf8 text)) ps text) = true) /\
+  (exists l, fuzzy_search T text = Ok l /\ forallb (fun x => memb x (patterns ps)) l = true).
+Proof. exact model_accepted. Qed.
+Print Assumptions c05_model_satisfies_judge.
+
+(* ... and on the integer encoding: `entry 2` (Run/C05.v: c05_ok) answers 1 on the model's own output (`entry 0`:
+   c05_model) for every case of the form Insert p1; ...; Insert pn; BuildFailureLinks; query text *)
+Theorem c05_judge_accepts_model : forall ps text, Forall is_bytes ps -> is_bytes text ->
+  let ops := map OInsert ps ++ [OBuild] in
+  c05_ok ops text (c05_model ops text) = true.
+Proof. exact judge_accepts_model. Qed.
+Print Assumptions c05_judge_accepts_model.
